@@ -11,6 +11,11 @@ property's own predicate on the implementation's output, by brute force over tru
             optimised DNF implies it), and the rebuilt Bdd is the operand itself (structurally; for a valid but
             non-canonical operand: same function and canonical)
   a panic on clauses that only mention variables `< num_vars` is a failure.
+Wide operands (more than `maxTT` variables, no truth table): every DNF clause is an implicant and the operand
+implies every CNF clause (exact, by one memoised walk of the diagram under the clause, plus evaluation at the
+corner valuations of the clause), the rebuilt Bdd is the operand, the observed clause list denotes the operand
+(`mkDnf`/`mkCnf` of the model on the OBSERVED list is the operand — sound by `mk_dnf_spec`/`mk_cnf_spec`), and
+the library's own verdicts (the `bits` field) say the same.
 Clauses that mention a variable `≥ num_vars` are outside the property: only model agreement is checked.
 -/
 namespace B.Drive.C10
@@ -42,8 +47,8 @@ def parseObsClauses (s : String) : Option (List PVal) :=
 
 /-- the harness's `fmt_partial p n` -/
 def showClause (n : Nat) (c : PVal) : String :=
-  let base := String.ofList ((List.range n).map fun i =>
-    match c.get i with | some true => '1' | some false => '0' | none => '-')
+  let base := String.ofList (((c.take n).map fun o =>
+    match o with | some true => '1' | some false => '0' | none => '-') ++ List.replicate (n - c.length) '-')
   let base := if base.isEmpty then "~" else base
   let extras := (c.toValues.filter fun l => l.1 ≥ n).map fun l => s!";{l.1}={if l.2 then 1 else 0}"
   base ++ String.join extras
@@ -94,6 +99,63 @@ def checkRebuilt (n : Nat) (b : Arr) (canonB : Bool) (r : String) (what : String
     else
       let tb := ttOf b n
       checkBuilt n R (fun i => tb[i]!) what
+
+/-- is the diagram constant once the variables fixed by `c` are substituted? `0`/`1` = constant false/true,
+    `2` = not constant. One walk with a memo table (`3` = not yet known); fuel = depth. -/
+def underGo (A : Arr) (c : PVal) : Nat → Nat → Array Nat → Array Nat × Nat
+  | 0, _, memo => (memo, 2)
+  | fuel + 1, p, memo =>
+    if p < 2 then (memo, p)
+    else if memo.getD p 3 != 3 then (memo, memo.getD p 3)
+    else
+      let nd := nodeAt A p
+      let (memo, r) := match c.get nd.var with
+        | some true => underGo A c fuel nd.high memo
+        | some false => underGo A c fuel nd.low memo
+        | none =>
+          let (m1, r1) := underGo A c fuel nd.low memo
+          let (m2, r2) := underGo A c fuel nd.high m1
+          (m2, if r1 == r2 then r1 else 2)
+      (memo.setIfInBounds p r, r)
+
+def constUnder (A : Arr) (c : PVal) : Nat :=
+  if A.size = 1 then 0 else (underGo A c (numVars A + 2) (root A) (Array.replicate A.size 3)).2
+
+/-- the clause as a total valuation: fixed positions as given, the free ones by `fill` -/
+def cornerVal (c : PVal) (fill : Nat → Bool) : Nat → Bool := fun k => (c.get k).getD (fill k)
+
+/-- SplitMix-style bit, deterministic in (seed, k) -/
+def pseudoBit (seed k : Nat) : Bool :=
+  let z := ((seed + 1) * 0x9E3779B97F4A7C15 + k * 0xBF58476D1CE4E5B9) % 18446744073709551616
+  let z := (z ^^^ (z >>> 30)) * 0x94D049BB133111EB % 18446744073709551616
+  (z >>> 17) % 2 == 1
+
+def cornerFills : List (Nat → Bool) :=
+  [fun _ => false, fun _ => true, pseudoBit 1, pseudoBit 2, pseudoBit 3, fun k => k % 2 == 0]
+
+/-- negation of every literal: the cube on which a disjunctive clause is false -/
+def negClause (c : PVal) : PVal := c.map fun o => o.map (!·)
+
+/-- every clause of a DNF is an implicant of `A`: exact walk and corner valuations -/
+def implicantFail (A : Arr) (cs : List PVal) (what : String) : Option String :=
+  if cs.any fun c => constUnder A c != 1 then some (what ++ ":clause-not-an-implicant")
+  else if cs.any fun c => cornerFills.any fun fill => !evalArr A (cornerVal c fill) then
+    some (what ++ ":clause-not-an-implicant(corner)")
+  else none
+
+/-- `A` implies every disjunctive clause -/
+def impliedFail (A : Arr) (cs : List PVal) (what : String) : Option String :=
+  if cs.any fun c => constUnder A (negClause c) != 0 then some (what ++ ":clause-not-implied")
+  else if cs.any fun c => cornerFills.any fun fill => evalArr A (cornerVal (negClause c) fill) then
+    some (what ++ ":clause-not-implied(corner)")
+  else none
+
+/-- the library's own verdicts -/
+def bitsFail (bits : String) (names : List (String × Bool)) : Option String :=
+  let bs := bits.toList
+  if bs.length != names.length then some ("bits:" ++ bits) else
+  (bs.zip names).findSome? fun (b, (name, required)) =>
+    if required && b != '1' then some ("lib:" ++ name ++ (if b == 'p' then ":panic" else ":false")) else none
 
 def sizeTag (k : Nat) : String := if k = 0 then "len0" else if k = 1 then "len1" else if k ≤ 3 then "len2-3" else "len4+"
 
@@ -154,7 +216,7 @@ def handle (key : String) (ins obs : List String) : Verdict :=
       { agree := model == res, model, fail, nontrivial := ok && c.toValues.length ≥ 1,
         tags := [key, s!"n{n}"] ++ (if ok then [] else ["oob"]) }
     | none => Verdict.bad "args"
-  | "C10.ext", [b], [dnf, cnf, rd, rc] =>
+  | "C10.ext", [b], [dnf, cnf, rd, rc, bits] =>
     match parseArr? b with
     | some A =>
       let n := numVars A
@@ -162,46 +224,91 @@ def handle (key : String) (ins obs : List String) : Verdict :=
       let mc := toCnf A
       let mrd : Outcome Arr := match md with | .ok cs => mkDnf n cs | .err m => .err m | .panic m => .panic m
       let mrc : Outcome Arr := match mc with | .ok cs => mkCnf n cs | .err m => .err m | .panic m => .panic m
-      let model := " ".intercalate [showOutClauses n md, showOutClauses n mc, showOutArr mrd, showOutArr mrc]
       let canonB := isCanon A
-      let tb := ttOf A n
-      let fail := firstFail [
-        match parseObsClauses dnf with
-        | none => some "to_dnf:panic"
-        | some cs =>
-          if !(cs.all (inRange n)) then some "to_dnf:foreign-variable" else
-          if (List.range (2 ^ n)).all fun i => dnfAt n cs i == tb[i]! then none else some "to_dnf:function",
-        match parseObsClauses cnf with
-        | none => some "to_cnf:panic"
-        | some cs =>
-          if !(cs.all (inRange n)) then some "to_cnf:foreign-variable" else
-          if (List.range (2 ^ n)).all fun i => cnfAt n cs i == tb[i]! then none else some "to_cnf:function",
-        checkRebuilt n A canonB rd "mk_dnf(to_dnf)",
-        checkRebuilt n A canonB rc "mk_cnf(to_cnf)"]
-      { agree := model == " ".intercalate [dnf, cnf, rd, rc], model, fail, nontrivial := A.size > 2,
-        tags := [key, s!"n{n}", if canonB then "canonical" else "noncanonical",
-          sizeTag ((parseObsClauses dnf).getD []).length] }
+      let mbits := String.ofList [
+        (match md with | .ok cs => if (implicantFail A cs "").isNone then '1' else '0' | _ => 'p'),
+        (match mc with | .ok cs => if (impliedFail A cs "").isNone then '1' else '0' | _ => 'p'),
+        (match mrd with | .ok r => if r == A then '1' else '0' | _ => 'p'),
+        (match mrc with | .ok r => if r == A then '1' else '0' | _ => 'p')]
+      let model := " ".intercalate [showOutClauses n md, showOutClauses n mc, showOutArr mrd, showOutArr mrc, mbits]
+      let od := parseObsClauses dnf
+      let oc := parseObsClauses cnf
+      let semFail : List (Option String) :=
+        if n ≤ maxTT then
+          let tb := ttOf A n
+          [ (match od with
+              | none => some "to_dnf:panic"
+              | some cs =>
+                if !(cs.all (inRange n)) then some "to_dnf:foreign-variable" else
+                if (List.range (2 ^ n)).all fun i => dnfAt n cs i == tb[i]! then none else some "to_dnf:function"),
+            (match oc with
+              | none => some "to_cnf:panic"
+              | some cs =>
+                if !(cs.all (inRange n)) then some "to_cnf:foreign-variable" else
+                if (List.range (2 ^ n)).all fun i => cnfAt n cs i == tb[i]! then none else some "to_cnf:function"),
+            checkRebuilt n A canonB rd "mk_dnf(to_dnf)",
+            checkRebuilt n A canonB rc "mk_cnf(to_cnf)" ]
+        else if !canonB then [some "wide-operand-not-canonical(harness)"]
+        else
+          [ (match od with
+              | none => some "to_dnf:panic"
+              | some cs =>
+                if !(cs.all (inRange n)) then some "to_dnf:foreign-variable" else
+                firstFail [implicantFail A cs "to_dnf",
+                  if showOutArr (mkDnf n cs) == b then none else some "to_dnf:function"]),
+            (match oc with
+              | none => some "to_cnf:panic"
+              | some cs =>
+                if !(cs.all (inRange n)) then some "to_cnf:foreign-variable" else
+                firstFail [impliedFail A cs "to_cnf",
+                  if showOutArr (mkCnf n cs) == b then none else some "to_cnf:function"]),
+            (if rd == b then none else some "mk_dnf(to_dnf):rebuild-equals"),
+            (if rc == b then none else some "mk_cnf(to_cnf):rebuild-equals") ]
+      let fail := firstFail (semFail ++ [bitsFail bits
+        [("dnf-clauses-implicants", true), ("cnf-clauses-implied", true),
+         ("mk_dnf(to_dnf)==b", canonB), ("mk_cnf(to_cnf)==b", canonB)]])
+      { agree := model == " ".intercalate [dnf, cnf, rd, rc, bits], model, fail, nontrivial := A.size > 2,
+        tags := [key, s!"n{if n ≤ maxTT then toString n else if n < 54 then "14-53" else if n ≤ 130 then "54-130" else "131+"}",
+          if canonB then "canonical" else "noncanonical"] ++ (if n > maxTT then ["wide"] else []) ++
+          [sizeTag (od.getD []).length] }
     | none => Verdict.bad "args"
-  | "C10.opt", [b], [dnf, rd] =>
+  | "C10.opt", [b], [dnf, rd, bits] =>
     match parseArr? b with
     | some A =>
       let n := numVars A
       let md := toOptimizedDnf A
       let mrd : Outcome Arr := match md with | .ok cs => mkDnf n cs | .err m => .err m | .panic m => .panic m
-      let model := " ".intercalate [showOutClauses n md, showOutArr mrd]
       let canonB := isCanon A
-      let tb := ttOf A n
-      let fail := firstFail [
-        match parseObsClauses dnf with
-        | none => some "to_optimized_dnf:panic"
-        | some cs =>
-          if !(cs.all (inRange n)) then some "to_optimized_dnf:foreign-variable" else
-          if !(cs.all fun c => (List.range (2 ^ n)).all fun i => !conjAt n c i || tb[i]!) then
-            some "to_optimized_dnf:clause-not-an-implicant" else
-          if (List.range (2 ^ n)).all fun i => dnfAt n cs i == tb[i]! then none else some "to_optimized_dnf:function",
-        checkRebuilt n A canonB rd "mk_dnf(to_optimized_dnf)"]
-      { agree := model == " ".intercalate [dnf, rd], model, fail, nontrivial := A.size > 2,
-        tags := [key, s!"n{n}", sizeTag ((parseObsClauses dnf).getD []).length] }
+      let mbits := String.ofList [
+        (match md with | .ok cs => if (implicantFail A cs "").isNone then '1' else '0' | _ => 'p'),
+        (match mrd with | .ok r => if r == A then '1' else '0' | _ => 'p')]
+      let model := " ".intercalate [showOutClauses n md, showOutArr mrd, mbits]
+      let od := parseObsClauses dnf
+      let semFail : List (Option String) :=
+        if n ≤ maxTT then
+          let tb := ttOf A n
+          [ (match od with
+              | none => some "to_optimized_dnf:panic"
+              | some cs =>
+                if !(cs.all (inRange n)) then some "to_optimized_dnf:foreign-variable" else
+                if !(cs.all fun c => (List.range (2 ^ n)).all fun i => !conjAt n c i || tb[i]!) then
+                  some "to_optimized_dnf:clause-not-an-implicant" else
+                if (List.range (2 ^ n)).all fun i => dnfAt n cs i == tb[i]! then none else some "to_optimized_dnf:function"),
+            checkRebuilt n A canonB rd "mk_dnf(to_optimized_dnf)" ]
+        else if !canonB then [some "wide-operand-not-canonical(harness)"]
+        else
+          [ (match od with
+              | none => some "to_optimized_dnf:panic"
+              | some cs =>
+                if !(cs.all (inRange n)) then some "to_optimized_dnf:foreign-variable" else
+                firstFail [implicantFail A cs "to_optimized_dnf",
+                  if showOutArr (mkDnf n cs) == b then none else some "to_optimized_dnf:function"]),
+            (if rd == b then none else some "mk_dnf(to_optimized_dnf):rebuild-equals") ]
+      let fail := firstFail (semFail ++ [bitsFail bits
+        [("optimized-clauses-implicants", true), ("mk_dnf(to_optimized_dnf)==b", canonB)]])
+      { agree := model == " ".intercalate [dnf, rd, bits], model, fail, nontrivial := A.size > 2,
+        tags := [key, s!"n{if n ≤ maxTT then toString n else if n < 54 then "14-53" else if n ≤ 130 then "54-130" else "131+"}"] ++
+          (if n > maxTT then ["wide"] else []) ++ [sizeTag (od.getD []).length] }
     | none => Verdict.bad "args"
   | _, _, _ => Verdict.bad ("key " ++ key)
 
